@@ -170,8 +170,22 @@ func forwardLoad(ld *ssa.UnOp, al *ssa.Alloc) ssa.Value {
 				return nil
 			}
 		case *ssa.DebugRef:
+		case *ssa.MakeClosure:
+			// captured by a closure: fine as long as the closure only reads the cell
+			fn, _ := y.Fn.(*ssa.Function)
+			if fn == nil {
+				return nil
+			}
+			for bi, bv := range y.Bindings {
+				if bv != ssa.Value(al) || bi >= len(fn.FreeVars) {
+					continue
+				}
+				if !freeVarReadOnly(fn.FreeVars[bi], 0) {
+					return nil
+				}
+			}
 		default:
-			return nil // captured by a closure, passed to a call, field-addressed...
+			return nil // passed to a call, field-addressed...
 		}
 	}
 	// latest store earlier in the same block
@@ -496,4 +510,33 @@ func phiLeaves(v ssa.Value) []ssa.Value {
 	}
 	walk(v)
 	return out
+}
+
+// freeVarReadOnly reports whether a captured cell is only loaded (possibly re-captured read-only).
+func freeVarReadOnly(fv *ssa.FreeVar, d int) bool {
+	if d > 4 {
+		return false
+	}
+	for _, r := range *fv.Referrers() {
+		switch y := r.(type) {
+		case *ssa.UnOp:
+			if y.Op != token.MUL {
+				return false
+			}
+		case *ssa.DebugRef:
+		case *ssa.MakeClosure:
+			fn, _ := y.Fn.(*ssa.Function)
+			if fn == nil {
+				return false
+			}
+			for bi, bv := range y.Bindings {
+				if bv == ssa.Value(fv) && bi < len(fn.FreeVars) && !freeVarReadOnly(fn.FreeVars[bi], d+1) {
+					return false
+				}
+			}
+		default:
+			return false
+		}
+	}
+	return true
 }
